@@ -82,6 +82,25 @@ Theorem C14_shared_channel_refuted :
 Proof. exact shared_refuted. Qed.
 Print Assumptions C14_shared_channel_refuted.
 
+(* ... and satisfies it outside exactly that region: if no arm/stop happens while some
+   goroutine has not yet reached its select (lost stop) or sits between its time.After arm
+   and its flag update (expiry racing the call), no monitor failure — for all schedules *)
+Theorem C14_shared_channel_partial :
+  forall strict sched s,
+    exec Shared t_init sched = Some s -> ops_calm Shared t_init sched = true ->
+    mon strict sched = [].
+Proof. exact shared_partial. Qed.
+Print Assumptions C14_shared_channel_partial.
+
+(* the carve-out is satisfiable by a non-trivial run (stop, replace, fire, stop) and
+   excludes the refuting schedule *)
+Theorem C14_shared_partial_nonvacuous :
+  (exists s, exec Shared t_init shared_calm_example = Some s) /\
+  ops_calm Shared t_init shared_calm_example = true /\
+  ops_calm Shared t_init lost_stop_witness = false.
+Proof. exact shared_calm_example_ok. Qed.
+Print Assumptions C14_shared_partial_nonvacuous.
+
 (* that schedule is not a run of the repaired mechanism *)
 Theorem C14_witness_impossible_after_fix : exec PerArm t_init lost_stop_witness = None.
 Proof. exact witness_not_per_arm. Qed.
